@@ -97,6 +97,20 @@ CHECKS = {
             "arcs, circles, disks and annuli are checked to lie on exact circles. Sampling, not proof.",
             "Trusted: vp/ref/bspl.py, vp/ref/geo.py, numpy. Derivatives are compared only where they are continuous.",
             "DESIGN.md section 2, C07"),
+    "C08": ("exploration",
+            "Hypothesis-generated (assembler, space, geometry, inputs, configuration) cases; differential / metamorphic "
+            "oracle against the base configuration (symmetric=False, csr, blocked, 1 thread), bitwise for thread counts",
+            "For the 14 shipped assembler classes and 7 JIT-compiled forms (non-square component blocks (2,1) and (2,3), "
+            "two spaces, parameter + updatable field, scalar and vector functionals, nonsymmetric scalar, on-demand mode) "
+            "every generated configuration - symmetric flag (symmetric forms), format csr/csc/coo/bsr/mlb, layout "
+            "blocked/packed with the documented permutation, entry / multi_entries / multi_blocks on unsorted subsets, "
+            "on-demand bounding boxes, update()/update_params() versus a fresh assembler, reuse of one object - must "
+            "reproduce the base result to rounding, and thread counts 2..16 (thread-pool chunking and OpenMP prange) must "
+            "reproduce it bit for bit. Sampling; the thread schedule is not owned by the harness (races searched by "
+            "repetition).",
+            "Trusted: the base configuration is tied to the independent reference by C01. A race needing a rare "
+            "interleaving can be missed.",
+            "DESIGN.md section 2, C08"),
     "C10": ("exploration",
             "Hypothesis-generated linear systems / index sets in arbitrary order / faces / boundary data + exhaustive "
             "enumeration of slice_indices on small shapes; oracle = dense algebraic definition and an independent "
